@@ -203,8 +203,9 @@ impl CapMap {
         if self.kind == "struct" && self.name == toml_datetime::__unstable::NAME {
             if let Some(e) = self.entries.first() {
                 let s = proj::from_cps(&e["val"]["v"]);
-                if let Ok(d) = s.parse::<toml_datetime::Datetime>() {
-                    return json!({"k": "dt", "v": proj::dt_j(&d)});
+                // read by the harness's own reader of the Display form: from_str is code under test
+                if let Some(j) = proj::dt_from_display(&s) {
+                    return json!({"k": "dt", "v": j});
                 }
             }
         }
